@@ -73,8 +73,24 @@ var arity = map[string]int{
 
 // QueueRejected reports whether Redis rejects the command while queueing (unknown name or bad arity).
 // known=false means the model has no arity for it (generators must not queue such commands).
+// subArity: sub-commands of the container commands (arity counts the container and the sub-command name).
+var subArity = map[string]map[string]int{
+	"CLIENT":  {"ID": 2, "GETNAME": 2, "SETNAME": 3, "INFO": 2, "LIST": -2, "KILL": -3, "UNBLOCK": -3, "NO-EVICT": 3, "SETINFO": 4, "HELP": 2},
+	"COMMAND": {"COUNT": 2, "LIST": -2, "DOCS": -2, "INFO": -2, "GETKEYS": -4, "GETKEYSANDFLAGS": -4, "HELP": 2},
+}
+
 func QueueRejected(argv []string) (rejected, known bool) {
 	name := up(argv[0])
+	if subs, ok := subArity[name]; ok && len(argv) >= 2 {
+		a, ok := subs[up(argv[1])]
+		if !ok {
+			return true, true // unknown sub-command: refused while queueing, like an unknown command
+		}
+		if (a > 0 && len(argv) != a) || (a < 0 && len(argv) < -a) {
+			return true, true
+		}
+		return false, false // a valid shape: what it does is not modelled here
+	}
 	a, ok := arity[name]
 	if !ok {
 		if _, modelled := commands[name]; modelled || sessionCmd[name] {
